@@ -230,7 +230,7 @@ pub fn go_spec_strategy(max_slice: u16) -> impl Strategy<Value = GoSpec> {
     (prop_oneof![2 => Just(0u8), 2 => Just(1u8), 2 => Just(2u8), 4 => Just(3u8), 4 => Just(4u8)], 1u16..=max_slice.max(2), prop_oneof![2 => Just(None), 3 => (1u8..=40).prop_map(Some)], prop_oneof![3 => Just(None), 1 => (0u16..200).prop_map(Some)], 0u32..12_000, any::<u8>(), any::<u8>())
         .prop_map(|(kind, slice_ms, mtg, inc, other, order, noise)| GoSpec { kind, slice_ms, mtg, inc, other, order, noise })
 }
-const GO_NOISE: [&str; 6] = ["infinite", "ponder", "depth 4", "movetime 50", "nodes 1000", "searchmoves e2e4"];
+const GO_NOISE: [&str; 12] = ["infinite", "ponder", "depth 4", "movetime 50", "nodes 1000", "searchmoves e2e4", "movetime -1", "movetime 0", "depth -3", "nodes 0", "movetime 99999999999999999999999", "mate 2"];
 /// the text of the go command for the given side to move
 pub fn go_text(g: &GoSpec, white_to_move: bool) -> String {
     let mut fields: Vec<(String, String)> = vec![];
@@ -1375,6 +1375,11 @@ fn c09_once(ptext: &str, p0: &Pos, gos: &[String], upto: usize) -> Result<(f64, 
             break;
         }
         let plan = plan_ms(go, p.stm == Color::White);
+        // in a third of the measurements the GUI stays silent for 120 ms before `go`: the slice
+        // starts when the go command arrives, not when the previous command was dealt with
+        if fp(&(ptext, i, go)) % 3 == 0 {
+            std::thread::sleep(Duration::from_millis(120));
+        }
         let ans = do_go(&mut e, go, plan)?;
         let m = check_bestmove(&ans.bestmove.unwrap(), &p)?;
         p = p.apply(&m);
@@ -2559,8 +2564,29 @@ pub fn c17_core(ptext: &str, p: &Pos, c: &C17Case, st: &mut Stats) -> CaseResult
             e.send(&ptext);
         }
     }
+    // bursts: a long run of blank / whitespace-only lines, or hundreds to thousands of DISTINCT
+    // unknown lines - what a table of "lines seen", a recursion per skipped line or a counter would need
+    if c.slice % 5 == 0 {
+        let n = [300usize, 3_000, 40_000, 300_000][(c.go_noise as usize >> 1) % 4];
+        let mut buf = String::with_capacity(n * 2);
+        for i in 0..n {
+            buf.push_str(if i % 7 == 3 { " \t\n" } else { "\n" });
+        }
+        e.send_raw(buf.as_bytes());
+        e.isready(Duration::from_secs(20)).map_err(|m| format!("after a run of {} blank lines: {}", n, m))?;
+        st.label("burst_of_blank_lines");
+    } else if c.slice % 5 == 1 {
+        let n = [260usize, 1_100, 5_000, 70_000][(c.go_noise as usize >> 1) % 4];
+        let mut buf = String::with_capacity(n * 14);
+        for i in 0..n {
+            buf.push_str(&format!("xyzzy {} {}\n", i, fp(&(i, c.slice)) % 100_000));
+        }
+        e.send_raw(buf.as_bytes());
+        e.isready(Duration::from_secs(20)).map_err(|m| format!("after {} distinct unknown lines: {}", n, m))?;
+        st.label("burst_of_distinct_unknown_lines");
+    }
     e.isready(Duration::from_secs(2))?;
-    if c.junk.len() > 1 {
+    if c.junk.len() > 1 || c.slice % 5 <= 1 {
         // the lines after the mid-way probe must have left the position alone as well
         let a = do_go(&mut e, "go", 0).map_err(|m| format!("after all ignorable lines: {}", m))?;
         let bm = a.bestmove.unwrap_or_default();
